@@ -1105,11 +1105,8 @@ func (c *Client) getSupportedVersion(ctx context.Context) (*GetSupportedVersionR
 	}
 	defer resp.Close()
 
-	data := make([]byte, resp.payloadLen)
-	if _, err := io.ReadFull(resp.payload, data); err != nil {
-		return nil, err
-	}
-	if err := resp.Close(); err != nil {
+	data, err := resp.data()
+	if err != nil {
 		return nil, err
 	}
 
